@@ -1,5 +1,5 @@
-(* C02 property theorems: statements only; every proof is [exact lemma]. (proofs in progress) *)
-From Gv Require Import lib.Bytes lib.Json C02.Model C02.Spec.
+(* C02 property theorems: statements only; every proof is [exact lemma]. *)
+From Gv Require Import lib.Bytes lib.Json C02.Model C02.Spec C02.ProofsRefine2 C02.ProofsTypesafe.
 Open Scope N_scope.
 
 (* non-vacuity: a well-formed plan with an abstract object, a nested list and an enum *)
@@ -9,3 +9,26 @@ Example c02_wf_example :
              Fld [98] None None None (NObj [[98]] true [73] [[65];[66]] [] false
                                         [Fld [99] (Some [[65]]) None None (NEnum [[99]] false [69] [[82]] [])])]) = true.
 Proof. reflexivity. Qed.
+
+(* T1: the two-pass implementation model (mutating pre-walk, then print walk) never panics, never
+   reports a print error, and yields exactly the errors and the marshalled tree of the one-pass
+   completion semantics -- for every authorization decision function, plan and data. *)
+Theorem resolve_refines_complete :
+  forall (deny : bytes -> bytes -> bool) (root : node) (data : json),
+    root_wf root = true ->
+    let r := resolve deny root data in
+    r_panic r = false /\ r_render_err r = false /\
+    r_errors r = snd (complete_root deny root data) /\
+    r_data r = data_bytes (fst (complete_root deny root data)) /\
+    (r_data_null r = true <-> fst (complete_root deny root data) = None).
+Proof. exact resolve_refines_complete_lemma. Qed.
+Print Assumptions resolve_refines_complete.
+
+(* T2: the completion result is type-safe and has exactly the selected keys *)
+Theorem complete_typesafe :
+  forall (deny : bytes -> bytes -> bool) (root : node) (data : json) (t : json),
+    root_wf root = true ->
+    fst (complete_root deny root data) = Some t ->
+    conforms_b root data [] t = true.
+Proof. exact complete_typesafe_lemma. Qed.
+Print Assumptions complete_typesafe.
